@@ -27,6 +27,10 @@ Two halves live in this file:
   tracer when the merged `spew` is true) with the same sys.argv / os.environ / framework dict still in place, and reports per step whether the call returned and, if so, every setting of the adopted `app.cfg`.
   The history ends at the first reload that does not return.
 
+  While a cell runs, `Setting.set` is watched (wrapped, the exception passes through unchanged): the helper reports
+  which setting's validator rejected a value and with which exception type (`rejected`).  That is an auxiliary
+  observation - it names the reach counters ("rejected with AttributeError", ...), no verdict rests on it.
+
 The process cwd while gunicorn.config is imported is the home directory, and stays the cwd of every cell:
 `Chdir.default` is computed at import (util.getcwd()), so this is what a real `gunicorn` launch from that
 directory looks like (default-config-file discovery happens after the first Application.chdir()).
@@ -46,6 +50,7 @@ if _VERIF not in sys.path:
 from vlib import common  # noqa: E402
 
 MARK = "_c16_loaded"            # attribute of `sys` in which generated config files record that they ran
+REJECTED = []                   # helper half: [setting, exception type] for every value a validator refused
 FILE_HEADER = ("import sys as _c16_sys\n"
                "_c16_sys.__dict__.setdefault(%r, []).append(__file__)\n" % MARK)
 
@@ -183,6 +188,7 @@ def _load_one(home, base_path, base_modules, recipe, LabApp):
         if m not in base_modules and (m == "__config__" or m.startswith("c16_cfgmod") or m == SHARED):
             del sys.modules[m]
     setattr(sys, MARK, [])
+    del REJECTED[:]
     os.environ.pop("GUNICORN_CMD_ARGS", None)
     if recipe.get("env") is not None:
         os.environ["GUNICORN_CMD_ARGS"] = recipe["env"]
@@ -220,12 +226,14 @@ def _load_one(home, base_path, base_modules, recipe, LabApp):
                 app = LabApp(framework)
                 obs = {"ok": True,
                        "values": {k: ser(s.get()) for k, s in app.cfg.settings.items()},
-                       "loaded": list(getattr(sys, MARK, [])), "cwd": os.getcwd()}
+                       "loaded": list(getattr(sys, MARK, [])), "cwd": os.getcwd(),
+                       "rejected": [list(x) for x in REJECTED]}
                 if recipe.get("steps"):
                     obs["steps"] = []
                 for step in recipe.get("steps", []):
                     # the master's part of a SIGHUP: app.reload(); on return, adopt app.cfg (Arbiter.setup)
                     setattr(sys, MARK, [])
+                    del REJECTED[:]
                     put(step.get("files", {}))
                     try:
                         app.reload()
@@ -237,6 +245,7 @@ def _load_one(home, base_path, base_modules, recipe, LabApp):
                     except BaseException as e:      # noqa: B036 - whatever escapes ends the master
                         so = {"returned": False, "exc": type(e).__name__, "code": 1, "msg": str(e)[:200]}
                     so["loaded"] = list(getattr(sys, MARK, []))
+                    so["rejected"] = [list(x) for x in REJECTED]
                     obs["steps"].append(so)
                     if not so["returned"]:
                         break
@@ -254,6 +263,8 @@ def _load_one(home, base_path, base_modules, recipe, LabApp):
                 os.unlink(path)
             except OSError:
                 pass
+    if "rejected" not in obs:
+        obs["rejected"] = [list(x) for x in REJECTED]
     obs["stderr"] = err.getvalue()[-300:]
     if obs.get("steps"):
         obs["stderr_all"] = err.getvalue()[-600:]
@@ -277,6 +288,17 @@ def _helper_main(mode, home):
         # BaseApplication.reload() ends with `if self.cfg.spew: debug.spew()`, which installs a sys.settrace
         # hook printing every executed line: an effect of the setting, not part of the merge - switched off
         debug.spew = lambda *a, **k: None
+        from gunicorn import config as gconfig
+        plain_set = gconfig.Setting.set
+
+        def watched_set(self, val):
+            try:
+                return plain_set(self, val)
+            except BaseException as e:          # noqa: B036 - only noted; the exception goes its way unchanged
+                REJECTED.append([self.name, type(e).__name__])
+                raise
+
+        gconfig.Setting.set = watched_set
 
         class LabApp(WSGIApplication):
             """The real WSGI application; init() additionally returns the framework-defaults dict."""
